@@ -159,6 +159,9 @@ class Repo:
                     tree = ast.parse(src, filename=rel)
                 except SyntaxError as e:
                     raise AnalysisError('cannot parse %s: %s' % (rel, e))
+                if os.environ.get('VERIF_NO_CANON') != '1':
+                    from .normalize import canon
+                    tree = canon(tree)
                 set_parents(tree)
                 parts = rel[:-3].split(os.sep)
                 is_pkg = parts[-1] == '__init__'
